@@ -168,6 +168,23 @@ def _div(it, a, b):
     return it.binop(ast.Div(), a, b)
 
 
+def _quot(a, b):
+    """a / b for two formulas; Unknown when either was not evaluated"""
+    if not isinstance(a, F.Rat) or not isinstance(b, F.Rat) or is_unknown(a) or is_unknown(b):
+        return I.Unknown("a table that was not evaluated")
+    try:
+        return a / b
+    except (Unsupported, ZeroDivisionError) as e:
+        return I.Unknown(str(e))
+
+
+def _cayley(U, V):
+    """(V + U) / (V - U), the exponential the Pade numerator / denominator pair stands for"""
+    if not isinstance(U, F.Rat) or not isinstance(V, F.Rat) or is_unknown(U) or is_unknown(V):
+        return I.Unknown("a table that was not evaluated")
+    return _quot(V + U, V - U)
+
+
 def _factored(v):
     """the matrix a solve is made with: la.lu_factor's (lu, piv) pair stands for the matrix factored"""
     if isinstance(v, tuple) and len(v) == 2:
@@ -293,6 +310,10 @@ def scalar_hook(extra=None, d=None, ell=None):
             ks = [int(I.cval(p_)) for p_ in pos if I.is_const(p_) and I.cval(p_).denominator == 1]
             if ell is not None and len(ks) == 1 and ks[0] != 13:
                 return F.const(ell.get(ks[0], 0))
+            if ell is not None and len(ks) == 1 and ks[0] == 13:
+                # the extra squarings scipy's _ell asks for on the scaled matrix: an unknown non-negative integer (what it is asked
+                # about is checked on the call record)
+                return F.sym("ell13")
             return NotImplemented
         if name == "mf._solve_P_Q" and n >= 2:
             U, V = to_rat(pos[0]), to_rat(pos[1])
@@ -661,9 +682,9 @@ def r1_pade_tables(ctx):
         tag = f"_expm_SS (route of order {N})"
         if _aborted(ctx, f"{tag}: the table can be evaluated", sfn, r.ret):
             continue
-        sig = r.scale()
+        sig = r.scale() if N == 13 else F.const(1)        # (only the order-13 route scales the matrix)
         if r.order is None or sig is None:
-            ctx.error(f"{tag}: table", sfn, f"no exponential solve reached: {r.ret!r}"[:300])
+            ctx.error(f"{tag}: table", sfn, f"no exponential solve reached / the scaling cannot be read from the table: {r.ret!r}"[:300])
             continue
         try:
             U2, V2 = (need(to_rat(t)).subs({"x": x / sig}) for t in r.pq.pos[:2])
@@ -744,7 +765,10 @@ class Run:
                     if not _find_crash(self.ret) and not isinstance(self.ret, Raised):
                         self.ret = I.Unknown(f"the Pade table of the route contains values the evaluator did not follow: {um}")
                 else:
-                    self.order = _degree(V - U)
+                    try:
+                        self.order = _degree(V - U)
+                    except Unsupported as e:
+                        self.ret = I.Unknown(f"the Pade table of the route is not a polynomial in the matrix: {e}")
 
     def scale(self):
         """sigma such that the exp table of the route is the diagonal approximant in A sigma (sigma = 2^-s on the scaled order-13 route, 1
@@ -901,13 +925,16 @@ def r2_thresholds(ctx):
             if rp.order != 13 or got is None:
                 ctx.error(title, fn, f"the order-13 table is not reached in this regime (order {rp.order}): {rp.ret!r}"[:300])
                 continue
-            want = rp.it.expr("2 ** -(S0 + mf._ell(2 ** -S0 * X, 13))", {"S0": F.const(k), "X": rp.A})
-            ok = I.same_value(got, want)
+            want = rp.it.expr("2 ** -(S0 + L)", {"S0": F.const(k), "L": F.sym("ell13")})
+            asked = [e_ for e_ in rp.ell_calls() if I.same_value(e_[1], F.const(13))]
+            ok = I.same_value(got, want) and len(asked) == 1 and I.same_value(asked[0][0], rp.A * Fraction(1, 2 ** k))
             if not ok and isinstance(got, F.Rat) and not is_unknown(got) and \
                     any(I.atoms_named(got, "call:" + nm_) for nm_ in list(ROUNDERS) + ["np.log2", "math.log2", "np.log", "math.log", "math.frexp", "np.frexp"]):
                 ctx.error(title, rp.pq.node, f"the scaling power is computed in a way the rule cannot evaluate to a number: {got!r}"[:300])
                 continue
-            verdict(ctx, ok, title, rp.pq.node, {"2^-s read from the table": repr(got)[:300], "want": repr(want)[:300]}, [got, want])
+            verdict(ctx, ok, title, rp.pq.node, {"2^-s read from the table": repr(got)[:300], "want": repr(want)[:300],
+                                                 "_ell(., 13) asked about": [repr(e_[0])[:120] for e_ in asked], "expected": repr(rp.A * Fraction(1, 2 ** k))},
+                    [got, want] + [e_[0] for e_ in asked])
             if q == "expmint" and dv["d4"] == big and dv["d10"] == big:
                 # the first integral's table carries the step: before the squarings int_0^(h 2^-s) e^{At} dt = h 2^-s + O(A)
                 lv = rp.leaves()
@@ -967,13 +994,21 @@ def r2_thresholds(ctx):
             return NotImplemented
 
         it = Interp(ctx, EXPM, hook=scalar_hook(extra), oracle=call_oracle({}, other))
-        ret = it.call("getEPQ", [A, h, order, B, half])
+        try:
+            ret = it.call("getEPQ", [A, h, order, B, half])
+        except Unsupported as e:
+            ret = I.Unknown(f"unsupported construct: {e}")
         c = _last(it.calls, "getEPQ1", "getEPQ2")
         res[regime] = (ret, c, it)
     consts = {c[2] for c in seen}
     ok = len(consts) == 1 and consts == {THETA[9]}
-    ctx.check(ok, "getEPQ: switches between getEPQ1 and getEPQ2 at theta_9 = 2.097847961257068", seen[0][3] if seen else fn,
-              None if ok else {"switch constants": sorted(str(c) for c in consts)})
+    if not seen:
+        # (no comparison with a constant was met: the function could not be followed to its switch)
+        ctx.error("getEPQ: switches between getEPQ1 and getEPQ2 at theta_9 = 2.097847961257068", fn,
+                  f"no comparison of a norm with a constant was reached: {[repr(v_[0])[:120] for v_ in res.values()]}"[:400])
+    else:
+        ctx.check(ok, "getEPQ: switches between getEPQ1 and getEPQ2 at theta_9 = 2.097847961257068", seen[0][3] if seen else fn,
+                  None if ok else {"switch constants": sorted(str(c) for c in consts)})
     ok = bool(seen) and all(v.equals(h * F.fn("norm1", A)) for _op, v, _c, _n in seen)
     known = bool(seen) and all(I.atoms_named(v, "norm1") or I.atoms_named(v, "some-other-norm") for _op, v, _c, _n in seen)
     if ok or known:
@@ -986,7 +1021,7 @@ def r2_thresholds(ctx):
     undecided = None
     for regime, want in (("below", "getEPQ1"), ("above", "getEPQ2")):
         ret, c, it = res[regime]
-        if _has_unknown(ret) and not _find_crash(ret):
+        if (_has_unknown(ret) and not _find_crash(ret)) or not seen:
             undecided = f"getEPQ could not be evaluated {regime} the switch: {ret!r}"[:300]
         if c is None or c.name != want or not I.same_value(ret, F.sym(want + "()")):
             good = False
@@ -1068,7 +1103,7 @@ def r3_squaring(ctx):
             X = x * h
             i2 = r2.ret[2] if isinstance(r2.ret, tuple) and len(r2.ret) == 3 else None
             e2 = r2.ret[0] if i2 is not None else None
-            ok = I.same_value(lp.init.get(nE), (V + U) / (V - U)) and I.same_value(lp.init.get(nI), P / Q) \
+            ok = I.same_value(lp.init.get(nE), _cayley(U, V)) and I.same_value(lp.init.get(nI), _quot(P, Q)) \
                 and isinstance(i2, F.Rat) and isinstance(e2, F.Rat) and I.same_value(e2, r.ret[0]) \
                 and I.same_value(_mod_first_integral(i2, e2, r2.ret[1], x), h * h * (X * e2 - e2 + 1) / (X * X))
             verdict(ctx, ok, "expmint (order 13): squaring starts from E = solve(V-U, V+U), I = solve(Q, P); I2 is computed from the squared E and "
@@ -1102,12 +1137,12 @@ def r3_squaring(ctx):
                         scaled = g.equals(g.subs({"h": F.const(1)}))          # g(x, h) = g(x, 1): no dependence on h is left
                     except Unsupported:
                         scaled = False
-                ok = len(r.ret) == 3 and I.same_value(r.ret[0], (V + U) / (V - U)) and I.same_value(r.ret[1], P / Q) \
+                ok = len(r.ret) == 3 and I.same_value(r.ret[0], _cayley(U, V)) and I.same_value(r.ret[1], _quot(P, Q)) \
                     and scaled
                 verdict(ctx, ok, f"expmint (order {m}): E = solve(V-U, V+U), I = solve(Q, P), I2 = h^2 f(A h) from the second-integral helper", tc.node,
                         {"returned": repr(r.ret)[:300], "I2": repr(i2)[:200]}, [r.ret, U, V, P, Q, r2.ret])
             else:
-                ok = len(r.ret) == 2 and I.same_value(r.ret[0], (V + U) / (V - U)) and I.same_value(r.ret[1], P / Q)
+                ok = len(r.ret) == 2 and I.same_value(r.ret[0], _cayley(U, V)) and I.same_value(r.ret[1], _quot(P, Q))
                 verdict(ctx, ok, f"expmint (order {m}, geti2 false): returns (E, I) only", tc.node, repr(r.ret)[:300], [r.ret, U, V, P, Q])
     # the integral is the solution of Q X = P whatever the structure of the matrix, by the solver made for that structure (evaluated as
     # expmint reaches it: the private helper may be renamed, inlined, or take its arguments in another order)
@@ -1123,7 +1158,7 @@ def r3_squaring(ctx):
             ctx.error(title, fn, f"could not evaluate: {r.ret!r}"[:300])
             continue
         U, V, P, Q = (to_rat(t) for t in tc.result)
-        ok = I.same_value(r.ret[1], P / Q) and len(lv) == 1 and lv[0].name == leafname
+        ok = I.same_value(r.ret[1], _quot(P, Q)) and len(lv) == 1 and lv[0].name == leafname
         verdict(ctx, ok, title, lv[0].node if lv else fn, {"I": repr(r.ret[1])[:200], "solver": [c.name for c in lv]}, [r.ret[1], P, Q])
     # _expm_SS: orders 3..9 return solve(V-U, V+U) of the table; squaring of the order-13 result
     fn = ctx.src.func(EXPM, "_expm_SS")
@@ -1136,7 +1171,7 @@ def r3_squaring(ctx):
             ctx.error(f"_expm_SS: order-{m} route", fn, f"could not evaluate: {r.ret!r}"[:300])
             continue
         U, V = (to_rat(t) for t in tc.result)
-        ok = I.same_value(r.ret, (V + U) / (V - U))
+        ok = I.same_value(r.ret, _cayley(U, V))
         verdict(ctx, ok, f"_expm_SS (order {m}): returns solve(V-U, V+U)", tc.node, repr(r.ret)[:300], [r.ret, U, V])
     r = Run(ctx, "_expm_SS", Fraction(10))
     tc = r.table_call()
@@ -1157,7 +1192,7 @@ def r3_squaring(ctx):
         nX = nX[:-len(suffix)] if nX.endswith(suffix) else None
         U, V = (to_rat(t) for t in tc.result)
         ok = nX is not None and isinstance(lp.out.get(nX), F.Rat) and lp.out[nX].equals(lp.in_sym(nX) ** 2) \
-            and I.same_value(lp.init.get(nX), (V + U) / (V - U))
+            and I.same_value(lp.init.get(nX), _cayley(U, V))
         verdict(ctx, ok, "_expm_SS: X <- X.X starting from solve(V-U, V+U)", lp.node, repr(r.ret)[:200], [r.ret, lp.out.get(nX) if nX else None, U, V])
 
 
